@@ -2002,6 +2002,9 @@ case_string:
                   case '"':
                     scr_last = scr_tail + 1;
                     *to++ = 0;
+                    /* a NUL inside the literal (a raw byte in the source, "\0", "\x00") ends the string there: the
+                     * scratchpad keeps its books by strlen(), and a length byte that disagrees makes it walk off its block */
+                    to = scr_last + strlen ((char *) scr_last) + 1;
                     scr_tail = to;
                     *to = (unsigned char)(to - scr_last);
                     yylval.string = (char *) scr_last;
